@@ -1254,13 +1254,23 @@ class Table:
         manifest (list) raises instead of returning partial/empty results -
         readers must be able to distinguish "empty table" from "broken table".
         """
-        snapshot = self.current_snapshot()
+        # Resolve the snapshot from ONE metadata read. Looking the snapshot up
+        # with one read and re-reading the metadata to classify a miss raced
+        # with writers: a reader that saw the still-empty table and then, on
+        # the second read, the first commit's current_snapshot_id reported a
+        # perfectly healthy table as "inconsistent".
+        metadata = self.metadata_manager.refresh()
+        current_id = metadata.current_snapshot_id if metadata else None
+        snapshot = None
+        if metadata is not None and current_id is not None:
+            for candidate in metadata.snapshots:
+                if candidate.snapshot_id == current_id:
+                    snapshot = candidate
+                    break
         if not snapshot:
             # An unset current_snapshot_id means "empty table". A SET id that
             # resolves to nothing means the metadata is inconsistent - returning
             # [] there would report a broken table as an empty one (#48).
-            metadata = self.metadata_manager.refresh()
-            current_id = metadata.current_snapshot_id if metadata else None
             if current_id is not None and current_id != -1:
                 raise RuntimeError(
                     f"Table metadata is inconsistent: current_snapshot_id {current_id} "
